@@ -485,6 +485,18 @@ def randomised(spec, acc):
     while n < spec["n"]:
         if n % 8 == 0:
             kept_rules_over_dying_architectures(rnd, acc)
+        if n % 4 == 0:
+            # the alias law on ONE 'anything' rule object that is logged (str) and re-used for one subject after the other
+            m0 = random_tree(rnd, 7, 11)
+            i0 = random_imports(rnd, m0, k_max=10)
+            e0 = build(m0, i0)
+            for (kind_, subj), d_, got in c01.anything_rule_looped_over_subjects(e0, m0, i0, rnd, acc) or []:
+                want = run(mk_rule(cfg_of("should_not", d_, True, (kind_, subj), (kind_, subj))), e0)
+                acc.evaluated()
+                acc.count("law_alias")
+                acc.count("alias_law_on_a_looped_anything_rule_object")
+                if got[0] != want[0]:
+                    HUB.violation("C12", f"alias:{d_}:looped-rule-object", f"'{subj} should not ... anything' on a rule object that was logged and re-used for several subjects gave {got[0]}, 'should not ... except itself' gave {want[0]}", {"mods": m0, "imps": i0, "subject": [kind_, subj], "dir": d_})
         mods = random_tree(rnd, 7, 12)
         imps = random_imports(rnd, mods, k_max=10)
         ev = build(mods, imps)
